@@ -9,6 +9,7 @@ import HpxVerif.Model.Topo
 import HpxVerif.Gen.Consts
 import HpxVerif.Model.Hash
 import HpxVerif.Model.Bilinear
+import HpxVerif.Model.C2V
 
 namespace Hpx.Driver
 
@@ -157,6 +158,15 @@ def optListF : Option (List (Float × Float)) → String
 
 def stepRest (st : St) (toks : List String) : St × String :=
   match toks with
+  | ["c2v", d, lon, lat] => (st, match C2V.largestC2V st.debug (nat! d) (fl lon) (fl lat) with | some v => fb v | none => "panic")
+  | ["c2vr", d, lon, lat, r] => (st, match C2V.largestC2VWithRadius st.debug (nat! d) (fl lon) (fl lat) (fl r) with | some v => fb v | none => "panic")
+  | ["c2vs", f, t, lon, lat, r] =>
+    (st, match C2V.largestC2VsWithRadius st.debug (nat! f) (nat! t) (fl lon) (fl lat) (fl r) with
+      | some l => if l.isEmpty then "-" else " ".intercalate (l.map fb)
+      | none => "panic")
+  | ["bsd", r] => (st, optNat (C2V.bestStartingDepth (fl r)))
+  | ["hasbsd", r] => (st, if C2V.hasBestStartingDepth (fl r) then "1" else "0")
+  | ["bsdthreshold", d] => (st, fb (C2V.table (α := Float) (nat! d)))
   | ["center", d, h] => (st, optPairF (Hash.center st.cfg (nat! d) (nat! h)))
   | ["cpc", d, h] => (st, optPairF (Hash.centerOfProjectedCell st.cfg (nat! d) (nat! h)))
   | ["vertices", d, h] => (st, optListF (Hash.vertices st.cfg (nat! d) (nat! h)))
